@@ -232,6 +232,16 @@ type asm struct {
 	blocks []blockInfo
 	rng    *hlib.Rand
 	flags  map[string]bool
+	trace  *tokTrace // when set, emitTokens records where every token ends
+}
+
+// tokTrace: for the Huffman block(s) emitted while it is attached, the bit position just after
+// each token and the number of bytes decoded up to there (used to aim limits, see window.go).
+type tokTrace struct {
+	endBit []int
+	dec    []int
+	n      int // decoded so far
+	eobN   int // length of the end-of-block code of the last block emitted
 }
 
 func newAsm(rng *hlib.Rand) *asm {
@@ -282,9 +292,15 @@ func fixedLengths() (lit, dist []int) {
 
 func (a *asm) emitTokens(ts []tok, ll, dl []int) {
 	lc, dc := canon(ll), canon(dl)
+	tr := a.trace
 	for _, t := range ts {
 		if t.lit {
 			a.w.code(lc[t.b], uint(ll[t.b]))
+			if tr != nil {
+				tr.n++
+				tr.endBit = append(tr.endBit, a.w.bitLen())
+				tr.dec = append(tr.dec, tr.n)
+			}
 			continue
 		}
 		s, e, nb := lenSym(t.length, a.rng)
@@ -293,6 +309,14 @@ func (a *asm) emitTokens(ts []tok, ll, dl []int) {
 		d, de, dnb := distSym(t.dist)
 		a.w.code(dc[d], uint(dl[d]))
 		a.w.bits(de, dnb)
+		if tr != nil {
+			tr.n += t.length
+			tr.endBit = append(tr.endBit, a.w.bitLen())
+			tr.dec = append(tr.dec, tr.n)
+		}
+	}
+	if tr != nil {
+		tr.eobN = ll[256]
 	}
 	a.w.code(lc[256], uint(ll[256]))
 }
@@ -387,6 +411,30 @@ func (a *asm) dynamic(final bool, ts []tok, deep bool, distMode int) {
 			a.flags["one-code-dist-tree"] = true
 		}
 		dl = mk(usedD, 30, 15)
+	}
+	a.dynamicLL(final, ts, ll, dl, st, deep)
+}
+
+// dynamicLL emits a dynamic-Huffman block for tokens ts with the given code lengths (ll: 286
+// literal/length lengths, dl: 30 distance lengths; every symbol used by ts and 256 must have a code).
+func (a *asm) dynamicLL(final bool, ts []tok, ll, dl []int, st int, deep bool) {
+	rng := a.rng
+	mk := func(used map[int]bool, n int, maxLen int) []int {
+		keys := make([]int, 0, len(used))
+		for k := range used {
+			keys = append(keys, k)
+		}
+		sort.Ints(keys)
+		out := make([]int, n)
+		if len(keys) == 1 {
+			out[keys[0]] = 1 // degenerate one-code tree
+			return out
+		}
+		ls := randomComplete(len(keys), maxLen, rng, deep)
+		for i, k := range keys {
+			out[k] = ls[i]
+		}
+		return out
 	}
 	for _, l := range ll {
 		if l == 15 {
